@@ -13,6 +13,7 @@ A-PY (variable trees are dicts: `VarsWF`).
 -/
 import Flax.Proofs.Lift
 import Flax.Proofs.LiftWhile
+import Flax.Proofs.LiftCounters
 
 namespace Flax.C05
 open Flax.Filter Flax.Lift
@@ -32,6 +33,38 @@ theorem pack_transparent (inF outF rngF : List LFilter) (mf : LFilter) (attrs : 
     (hrng : ∀ r, r ∈ rngDeps f.body → (alookup r s.rngs).isSome = true → anyMatch rngF r = true) :
     Agree (runFn attrs f args s) (liftId inF outF rngF mf attrs f args s) :=
   liftId_agree inF outF rngF mf attrs f args s hwf hfz hin hout hrng
+
+private theorem aux_inChild (ch : String) (p : Prog) :
+    cols (inChild ch p) = cols p ∧ wcols (inChild ch p) = wcols p ∧ rngNames (inChild ch p) = rngNames p := by
+  induction p <;> simp_all [inChild, cols, wcols, rngNames]
+
+/-- **pack_transparent for bodies that run on a child scope.** A child module bound under the name `ch` (in
+`setup` or earlier in the compact method) and used inside the transformed code touches the parent's collections at
+the child's path, draws from the parent's streams with the child's name in the key suffix, and counts its draws in
+the dict nested under the child token of the parent's counter dict (`inChild`, `Prog.rngAt`, `makeRngAt`).  `pack`
+is transparent for such bodies under exactly the hypotheses of `pack_transparent` on the collections and streams the
+child's body names — for any mix of own and child instructions, since `pack_transparent` quantifies over every body. -/
+theorem pack_transparent_child (ch : String) (inF outF rngF : List LFilter) (mf : LFilter) (attrs : List (String × Int))
+    (f : Fn) (args : List Int) (s : ScopeSt) (hwf : VarsWF s.vars) (hfz : s.FrozenOk)
+    (hin : ∀ c, c ∈ cols f.body → anyMatch inF c = true)
+    (hout : ∀ c, c ∈ wcols f.body → inFilter s.mutable c = true → anyMatch outF c = true ∧ inFilter mf c = true)
+    (hrng : ∀ r, r ∈ rngDeps f.body → (alookup r s.rngs).isSome = true → anyMatch rngF r = true) :
+    Agree (runFn attrs ⟨inChild ch f.body, f.ret⟩ args s)
+      (liftId inF outF rngF mf attrs ⟨inChild ch f.body, f.ret⟩ args s) := by
+  have h := aux_inChild ch f.body
+  apply liftId_agree
+  · exact hwf
+  · exact hfz
+  · intro c hc; exact hin c (by simpa [h.1] using hc)
+  · intro c hc; exact hout c (by simpa [h.2.1] using hc)
+  · intro r hr; exact hrng r (by simpa [rngDeps, h.2.2] using hr)
+
+-- a child's draw: the key carries the child's name and its own counter; the parent's counter is untouched
+example : (runFn [] ⟨inChild "d" (.seq (.rng "dropout") (.rng "dropout")), []⟩ []
+      { vars := [], mutable := .ff, frozen := [], rngs := [("dropout", ⟨.seed "dropout", []⟩)],
+        counters := [("dropout", 4)] }).toOption.map (fun r => (r.1.keys, r.2.counters)) =
+    some ([.fold (.seed "dropout") [.s "d", .n 1], .fold (.seed "dropout") [.s "d", .n 2]],
+      [("dropout", 4), ("d/dropout", 2)]) := by decide
 
 /-- `nn.remat` / `nn.checkpoint` with lifting filters `variables`, `rngs` -/
 theorem remat_transparent (variables rngs : LFilter) (attrs : List (String × Int)) (f : Fn)
@@ -170,6 +203,22 @@ private theorem aux_no_frozenWrite (env : Env) (b : Prog) : ∀ (m : M), m.sc.Fr
       split at h
       · cases h
       · split at h <;> cases h
+  | rngAt pth st =>
+    intro m _
+    simp only [eval]
+    cases h : m.sc.makeRngAt pth st with
+    | ok r => simp
+    | error e =>
+      simp only
+      intro he; cases he
+      unfold ScopeSt.makeRngAt at h
+      split at h
+      · cases h
+      · split at h
+        · cases h
+        · split at h
+          · cases h
+          · split at h <;> cases h
 
 /-- **freeze_unreachable.** `_partial_pack` freezes in-only collections, but a body never gets as far as
 assigning into a FrozenDict: those collections are already immutable by the inner scope's filter, so the write
@@ -585,6 +634,16 @@ theorem fingerprint_inner_mutable (variables : LFilter) (e e' : JitEnv)
   have := congrArg (fun f => inFilter f c) h
   simpa [fingerprint, hashable_filter_sem] using this
 
+/-- finding B1 (fixed in /repo cfc8239): compared by hash only, the attribute values `-1` and `-2` are the same key
+(`hash(-1) == hash(-2)` in CPython) although the fingerprints differ and the jitted body computes different values —
+the second call reused the first call's trace. -/
+theorem hash_only_compare_counterexample :
+    attrsHashOrig [("k", -1)] = attrsHashOrig [("k", -2)] ∧
+    fingerprint .tt ⟨"M", [("k", -1)], default, .ff, [], [], [], none, []⟩ ≠
+      fingerprint .tt ⟨"M", [("k", -2)], default, .ff, [], [], [], none, []⟩ ∧
+    evalExpr ⟨[5], [("k", -1)]⟩ [] (.mul (.attr "k") (.arg 0)) ≠ evalExpr ⟨[5], [("k", -2)]⟩ [] (.mul (.attr "k") (.arg 0)) :=
+  ⟨by decide, (fingerprint_detects_change .tt _ _).1 (by decide), by decide⟩
+
 private def CacheOk (variables rngs : LFilter) (f : Fn) (cache : TraceCache) : Prop :=
   ∀ k t, cache.find k = some t → ∀ e i, (fingerprint variables e, i.shape) = k → t i = traceJit variables rngs f e i
 
@@ -688,6 +747,112 @@ theorem counter_delta_restore_partial (keyByFn : Bool) (fid : Nat) (fp : Fingerp
   subst hold; subst hnow
   simp [restoreCounters, DeltaCache.find, countsSub, countsRestore, alookup, ainsert]
   omega
+
+/-! ## the counter replay on a cache hit, with nested dicts shared by reference -/
+
+/-- `now` can be what an execution leaves behind when it starts from the counter heap `h`: Python dicts (distinct
+keys), and no stream or child dict disappears (counters are only created and incremented) -/
+structure Extends (h : CHeap) (now : CVal) : Prop where
+  rn : (keys now.root).Nodup
+  kn : (keys now.kids).Nodup
+  cn : ∀ k c, alookup k now.kids = some c → (keys c).Nodup
+  root : ∀ s, (alookup s h.root).isSome = true → (alookup s now.root).isSome = true
+  kids : ∀ k a, alookup k h.kids = some a → ∃ c, alookup k now.kids = some c ∧
+    ∀ s, (alookup s (h.obj a)).isSome = true → (alookup s c).isSome = true
+
+/-- **counter_delta_restore.** The rng counters are a nested dict whose child dicts are shared *by reference* with
+the already-bound child scopes.  Let `now` be the counts an actual execution of the jitted body leaves when started
+from counts `h.read`, and `now - h.read` the delta recorded when the body was traced.  On a cache hit
+`_restore_rng_counters` (flatten, `add` the delta to the counts captured before the call, `unflat`,
+`set_from_dict`) leaves:
+* the scope's own counts exactly at `now`;
+* every child token that was bound before the call **at the same dict object** (same address), and that object's
+  counts exactly at `now`'s — so a child scope bound outside the jitted code reads, through its own reference,
+  what the execution would have left;
+* child dicts first created inside the jitted code stored with `now`'s counts.
+For every heap, every `now`, every number of streams and children. -/
+theorem counter_delta_restore (h : CHeap) (hw : h.WF) (now : CVal) (hx : Extends h now) :
+    (∀ s, alookup s (restoreHeap h (now.sub h.read)).root = alookup s now.root) ∧
+    (∀ k a, alookup k h.kids = some a →
+      alookup k (restoreHeap h (now.sub h.read)).kids = some a ∧
+      ∀ s, alookup s ((restoreHeap h (now.sub h.read)).obj a) = alookup s (kidGet now k)) ∧
+    (∀ k c, alookup k h.kids = none → alookup k now.kids = some c →
+      ∃ a, alookup k (restoreHeap h (now.sub h.read)).kids = some a ∧ (restoreHeap h (now.sub h.read)).obj a = c) := by
+  have hw0 : ({ h with root := mergeInto h.root now.root } : CHeap).WF := ⟨hw.kn, hw.an, hw.ab⟩
+  obtain ⟨_, r, e, n⟩ := setKids_spec now.kids { h with root := mergeInto h.root now.root } hw0 hx.kn
+  simp only [restoreHeap, sub_add_cancel, setFromDict]
+  refine ⟨?_, ?_, ?_⟩
+  · intro s
+    rw [r]
+    simp only
+    rw [alookup_mergeInto _ _ hx.rn]
+    cases hn : alookup s now.root with
+    | some v => rfl
+    | none =>
+      simp only
+      cases ho : alookup s h.root with
+      | none => rfl
+      | some v => have := hx.root s (by simp [ho]); simp [hn] at this
+  · intro k a hk
+    obtain ⟨h1, h2⟩ := e k a hk
+    refine ⟨h1, ?_⟩
+    intro s
+    obtain ⟨c, hc, hext⟩ := hx.kids k a hk
+    rw [h2, hc]
+    simp only [kidGet, hc]
+    have hobj : ({ h with root := mergeInto h.root now.root } : CHeap).obj a = h.obj a := rfl
+    rw [hobj, alookup_mergeInto _ _ (hx.cn k c hc)]
+    cases hn : alookup s c with
+    | some v => rfl
+    | none =>
+      simp only
+      cases ho : alookup s (h.obj a) with
+      | none => rfl
+      | some v => have := hext s (by simp [ho]); simp [hn] at this
+  · intro k c hk hc
+    exact n k c hk hc
+
+/-- the aliasing requirement is real (seeded change `set_from_dict := original.update(updates)`): with the
+non-recursive update every *value* of the counter dict is right — reading the dict from the scope gives `now` — but
+the child token now points to a fresh object, and the dict object an already-bound child scope holds (address 0) still
+has the stale count, so that child's next draw repeats a key. -/
+theorem dict_update_breaks_child_reference :
+    let h : CHeap := ⟨[("dropout", 1)], [("child", 0)], [[("dropout", 1)]]⟩
+    let now : CVal := ⟨[("dropout", 2)], [("child", [("dropout", 3)])]⟩
+    (restoreHeapUpdate h (now.sub h.read)).read = now ∧
+    (restoreHeapUpdate h (now.sub h.read)).obj 0 = [("dropout", 1)] ∧
+    (restoreHeap h (now.sub h.read)).obj 0 = [("dropout", 3)] ∧
+    alookup "child" (restoreHeap h (now.sub h.read)).kids = some 0 := by
+  decide
+
+example : (⟨[("dropout", 1)], [("child", 0)], [[("dropout", 1)]]⟩ : CHeap).WF :=
+  ⟨by decide, by decide, by intro ka hka; simp at hka; subst hka; decide⟩
+
+example : Extends ⟨[("dropout", 1)], [("child", 0)], [[("dropout", 1)]]⟩
+    ⟨[("dropout", 2)], [("child", [("dropout", 3)]), ("fresh", [("dropout", 1)])]⟩ where
+  rn := by decide
+  kn := by decide
+  cn := by
+    intro k c hc
+    simp only [alookup] at hc
+    split at hc
+    · cases hc; decide
+    · split at hc
+      · cases hc; decide
+      · cases hc
+  root := by intro s hs; simp only [alookup] at hs ⊢; split <;> simp_all
+  kids := by
+    intro k a hk
+    simp only [alookup] at hk
+    split at hk
+    · cases hk
+      rename_i hkk; subst hkk
+      refine ⟨[("dropout", 3)], by decide, ?_⟩
+      intro s hs
+      by_cases e : "dropout" = s
+      · simp [alookup, e]
+      · simp [CHeap.obj, alookup, e] at hs
+    · cases hk
 
 /-! ## non-vacuity: concrete instances of the hypotheses -/
 
